@@ -47,11 +47,28 @@ def run_ms(ctx, kind):
                            "the real-time probes (msreal) measure the property's bounds with the wall clock on a live server instance; assumptions A1–A4 of Slock/Properties/C05Ms.lean")
 
 
+def run_ms_follower(ctx):
+    """C10, millisecond unit: a replicated millisecond hold on a non-leader node is deferred, never ended by the node's own clock."""
+    if ctx.lake_build(["Slock.Proofs.MsWheel"], exe=True):
+        ctx.audit("Slock.Proofs.MsWheel", ["Slock.Ms.followerDefer_generated", "Slock.Ms.sweep_call_sites_do_not_force", "Slock.Ms.afterPark_generated"])
+    exe = ctx.build_harness("server", only=MS_FILES)
+    if not exe:
+        return
+    outdir = ctx.run_harness(exe, "mswf", 60 if ctx.tier == "thorough" else 10, timeout=600)
+    if outdir:
+        dis = ctx.diff(outdir, "mswf")
+        engine_common.read_monitor(ctx, outdir, "mswf", ["C10:"])
+        if dis:
+            d = dis[0]
+            ctx.broken.append({"kind": "correspondence", "name": "M-MSWHEEL (follower deferral) vs real millisecond stage (mswf)",
+                               "detail": f"{len(dis)} cases disagree; first: op={d[1]} impl={d[2]} model={d[3]}"})
+
+
 def is_ms_replay(path):
     import json
     try:
         r = json.load(open(path)).get("replay")
-        return isinstance(r, dict) and r.get("mode") in ("msw", "msreal")
+        return isinstance(r, dict) and r.get("mode") in ("msw", "msreal", "mswf")
     except Exception:
         return False
 
@@ -67,7 +84,7 @@ def replay_ms(prop, path):
         mode = r["mode"]
         outdir = ctx.run_harness(exe, mode, 1, seed=r.get("seed", 1), extra=env, timeout=300)
         n = 0
-        dis = ctx.diff(outdir, mode) if mode == "msw" else []
+        dis = ctx.diff(outdir, mode) if mode in ("msw", "mswf") else []
         for (i, op, impl, model) in dis or []:
             print("MODEL/IMPL DISAGREE:", op, "impl=", impl, "model=", model)
         for l in open(os.path.join(outdir, mode + ".mon")):
